@@ -18,7 +18,9 @@ RULE = (
     "invocation; the font must equal the clean build of the final inputs and every invocation whose event log shows a fired "
     "fault must exit non-zero.  (b) random histories of 3-6 steps over {add, modify, rename, remove source; change colour "
     "format, metrics, reuse_tolerance, clip_to_viewbox, bitmap_resolution, pngquant flags} interleaved with faults, judged "
-    "the same way.  Non-trivial = case whose fault actually fired (event log) or history with >= 1 edit; distinct = the "
+    "the same way.  (c) fault-free edit enumeration: on a directory holding a successful 4-source build (one source is a "
+    "many-colour image whose quantisation pngquant declines) every source is edited in turn / every listed option changed, "
+    "rebuilt, and compared with the clean build.  Non-trivial = case whose fault actually fired (event log) or history with >= 1 edit; distinct = the "
     "fault point / the history."
 )
 ASSUMPTIONS = ["edits advance mtime (ninja's own contract)", "faults where a step exits 0 after writing garbage are outside the stated fault set", "bytes are comparable across build directories (C08)"]
@@ -33,6 +35,13 @@ SRC = {
 }
 ALT = '<svg xmlns="http://www.w3.org/2000/svg" viewBox="0 0 100 100"><rect x="5" y="5" width="50" height="70" fill="#aa00aa"/><rect x="30" y="35" width="60" height="40" fill="#008844"/></svg>'
 EXTRA = ("emoji_u1f602.svg", '<svg xmlns="http://www.w3.org/2000/svg" viewBox="0 0 100 100"><circle cx="50" cy="50" r="40" fill="#ffcc00"/><rect x="10" y="10" width="60" height="40" fill="#cc3300"/></svg>')
+RAINBOW = (
+    "emoji_u1f308.svg",
+    '<svg xmlns="http://www.w3.org/2000/svg" viewBox="0 0 100 100"><defs><linearGradient id="a" x1="0" y1="0" x2="1" y2="0"><stop offset="0" stop-color="#ff0000"/><stop offset="0.17" stop-color="#ff9900"/><stop offset="0.33" stop-color="#ffff00"/><stop offset="0.5" stop-color="#00cc00"/><stop offset="0.67" stop-color="#0066ff"/><stop offset="0.83" stop-color="#6600cc"/><stop offset="1" stop-color="#ff00aa"/></linearGradient><radialGradient id="b" cx="0.5" cy="0.5" r="0.6"><stop offset="0" stop-color="#ffffff" stop-opacity="0.9"/><stop offset="0.5" stop-color="#00ffff" stop-opacity="0.4"/><stop offset="1" stop-color="#000000" stop-opacity="0.7"/></radialGradient></defs><rect x="2" y="2" width="96" height="96" fill="url(#a)"/><rect x="2" y="2" width="96" height="96" fill="url(#b)"/></svg>',
+)  # many colours: pngquant declines it (exit 98/99) at the default quality floor, the wrapper then copies the input
+RAINBOW_ALT = RAINBOW[1].replace('x2="1" y2="0"', 'x2="0" y2="1"').replace('r="0.6"', 'r="0.45"')
+EDIT_FORMATS = {"quick": ["cbdt", "sbix", "glyf_colr_1", "picosvg"], "thorough": ["cbdt", "sbix", "glyf_colr_1", "glyf_colr_0", "picosvg", "untouchedsvg", "glyf", "cff2_colr_1"]}
+EDIT_OPTIONS = [("pngquant_flags", "--quality 100"), ("pngquant_flags", "--speed 10 --quality 30-50"), ("bitmap_resolution", 48), ("use_pngquant", False), ("use_zopflipng", False), ("clip_to_viewbox", False), ("reuse_tolerance", -1), ("ascender", 900), ("keep_glyph_names", True)]
 
 
 def edges(fmt, names):
@@ -72,6 +81,14 @@ def plan(tier, seed):
             r = common.rng(ID, "sample", seed, fmt)
             for step, out in r.sample(es, 4):
                 cases.append({"id": f"{fmt}-incremental-{step.split('.')[-1]}-{out}-kill_truncate", "kind": "fault", "fmt": fmt, "phase": "incremental", "fault": f"{step}|{out}|kill_truncate"})
+    # fault-free edit enumeration: every source edited in turn / every option changed, on a build directory that
+    # already holds a successful build (incl. a source whose quantisation is declined)
+    for fmt in EDIT_FORMATS[tier]:
+        for n in sorted(SRC) + [RAINBOW[0]]:
+            cases.append({"id": f"{fmt}-edit-{n}", "kind": "edit", "fmt": fmt, "edit": n})
+        for k, (opt, val) in enumerate(EDIT_OPTIONS):
+            if tier == "thorough" or fmt in ("cbdt", "sbix") or k >= 5:
+                cases.append({"id": f"{fmt}-option-{opt}-{k}", "kind": "edit", "fmt": fmt, "option": [opt, val]})
     cases += [{"id": f"{seed}-hist{i}", "kind": "history", "i": i} for i in range(NHIST[tier])]
     return cases
 
@@ -210,6 +227,62 @@ def run_fault(case):
     return res
 
 
+def run_edit(case):
+    from vf.drive import cli
+
+    fmt = case["fmt"]
+    res = {"counters": {}, "violations": [], "tags": [fmt, "edit"]}
+    c = res["counters"]
+    root = common.mkscratch("c09e-")
+    try:
+        w = World(root, fmt)
+        if fmt in ("cbdt", "sbix"):
+            w.opts["bitmap_resolution"] = 64
+        for n, t in list(SRC.items()) + [RAINBOW]:
+            w.write(n, t)
+        b = root / "build"
+        r0 = w.invoke(b)
+        hist = [("build", r0["rc"])]
+        if r0["rc"] != 0:
+            res["error"] = "setup build failed: " + r0["out"][-500:]
+            return res
+        if "Reuse bitmap/" in r0["out"]:
+            c["quantisation_declined_in_first_build"] = 1
+        before = cli.sha256(b / "Font.ttf")
+        if "edit" in case:
+            n = case["edit"]
+            w.write(n, RAINBOW_ALT if n == RAINBOW[0] else ALT)
+            hist.append((f"modify {n}", None))
+        else:
+            k, v = case["option"]
+            w.opts[k] = v
+            hist.append((f"option {k}={v}", None))
+        r1 = w.invoke(b)
+        hist.append(("rebuild", r1["rc"]))
+        c["edit_rebuilds"] = 1
+        if "Reuse bitmap/" in r1["out"]:
+            c["quantisation_declined_in_rebuild"] = 1
+        final = cli.sha256(b / "Font.ttf")
+        crc, clean, cout = w.clean_sha()
+        if crc != 0:
+            c["final_inputs_unbuildable"] = 1
+            if r1["rc"] == 0:
+                res["violations"].append({"what": "clean build of the final inputs fails but the incremental invocation succeeded", "history": hist, "clean_output": cout[:1500]})
+        elif r1["rc"] != 0:
+            res["violations"].append({"what": f"rebuild after an edit exits {r1['rc']} although the same inputs build cleanly", "history": hist, "output": r1["out"][:2500]})
+        elif final != clean:
+            res["violations"].append({"what": "font after an edit and a rebuild differs from the clean build of the final inputs", "history": hist, "case": case, "unchanged_by_rebuild": final == before})
+        if final != before:
+            c["edits_that_changed_the_font"] = 1
+        res["nontrivial"] = True
+        res["key"] = case["id"]
+        if case["id"].endswith("cbdt-edit-" + RAINBOW[0]):
+            res["sample"] = {"history": hist, "font_changed": final != before}
+    finally:
+        shutil.rmtree(root, ignore_errors=True)
+    return res
+
+
 def run_history(case):
     from vf.drive import cli
 
@@ -309,7 +382,7 @@ def run_history(case):
 
 
 def run_case(case):
-    return run_fault(case) if case["kind"] == "fault" else run_history(case)
+    return {"fault": run_fault, "edit": run_edit, "history": run_history}[case["kind"]](case)
 
 
 def finish(agg):
@@ -322,5 +395,8 @@ def finish(agg):
         inc.append(f"only {fired} of {pts} enumerated fault points fired")
     if c.get("histories", 0) == 0:
         inc.append("no history ran")
+    for k in ("edit_rebuilds", "edits_that_changed_the_font", "quantisation_declined_in_rebuild"):
+        if c.get(k, 0) == 0:
+            inc.append(f"deciding branch never reached: {k}")
     notfired = sorted(r["id"] for r in agg["results"] if "not-fired" in (r.get("tags") or []))
-    return {"inconclusive": inc, "coverage": {"fault_points_enumerated": pts, "fault_points_fired": fired, "fault_points_not_fired": notfired[:40], "histories": c.get("histories", 0), "history_invocations": c.get("invocations", 0), "history_faults_fired": c.get("faults_fired", 0) - fired, "exhaustive": False}}
+    return {"inconclusive": inc, "coverage": {"fault_points_enumerated": pts, "fault_points_fired": fired, "fault_points_not_fired": notfired[:40], "histories": c.get("histories", 0), "edit_rebuilds": c.get("edit_rebuilds", 0), "edits_that_changed_the_font": c.get("edits_that_changed_the_font", 0), "rebuilds_where_quantisation_was_declined": c.get("quantisation_declined_in_rebuild", 0), "history_invocations": c.get("invocations", 0), "history_faults_fired": c.get("faults_fired", 0) - fired, "exhaustive": False}}
